@@ -17,7 +17,10 @@ def run_witness():
         return engine._witness_cache
     repo = engine.REPO
     rundir = engine.RUNDIR
-    w = os.path.join(rundir, 'witness')
+    # a stable crate directory per analysed tree: cargo's unit hashes depend on the crate path, and a fresh path per run
+    # would leave a new set of artefacts in the shared target directory every time
+    import hashlib
+    w = os.path.join(engine.VERIF, '.build', 'witness-crate-' + hashlib.sha1(os.path.abspath(repo).encode()).hexdigest()[:10])
     os.makedirs(os.path.join(w, 'src'), exist_ok=True)
     src = os.path.join(engine.VERIF, 'witness')
     toml = open(os.path.join(src, 'Cargo.toml.in')).read().replace('@REPO@', repo)
@@ -29,6 +32,7 @@ def run_witness():
     env = dict(os.environ)
     env['CARGO_TARGET_DIR'] = os.path.join(engine.VERIF, '.build', 'witness-target')
     env['CARGO_NET_OFFLINE'] = 'true'
+    env['CARGO_INCREMENTAL'] = '0'
     env.pop('RUSTC_WORKSPACE_WRAPPER', None)
     env.pop('RUSTFLAGS', None)
     r = subprocess.run(['cargo', '+nightly', 'test', '--doc', '--offline', '--', '--test-threads', '16'], cwd=w, env=env,
